@@ -127,12 +127,182 @@ fn gen_case(rng: &mut Rng, out: &mut Out, tier: &str) {
     }
 }
 
+// ------------------------------------------------------------------------------------------------
+// Input-domain family (`d<id>` cases, separately seeded; the `r<id>` cases above stay as they are).
+// Same op vocabulary, wider value classes per field - everything here is legal at the public API and
+// inside the quantifier of C03 ("all engine event histories x strategy/risk outputs x link patterns x
+// trading toggles x the four command kinds"):
+//   * open requests: price / quantity over the signed Decimal domain (0, negative, fractional, 1e-8,
+//     1e12) - the request path forwards and records them untouched;
+//   * client order ids 0, 4999 | 5000.. (the scripted risk predicate's boundary) also in COMMANDS:
+//     commands bypass the risk manager, so a cid the risk manager would refuse is sent;
+//   * exchange indices far beyond the link table (not only nex, nex+1);
+//   * batch sizes: empty commands (`OneOrMany::Many([])`), 6-12 requests per command / algo output;
+//   * filters with SEVERAL elements (`OneOrMany::Many`): duplicates, known + unknown exchange,
+//     out-of-range instrument, reversed / unknown underlyings;
+//   * order snapshots: OpenInFlight (`F`), fully filled / over-filled Open (filled = | > quantity),
+//     zero quantity / price, exchange time negative, far ahead;
+//   * fills (on a flat instrument) and prices with fractional / tiny / huge magnitudes, price 0;
+//   * long histories (120-200 events) and up to 6 instruments.
+const D_PRICES: &[&str] = &["0", "-1", "0.5", "100.25", "0.00000001", "1000000000000", "100", "101"];
+const D_QTYS: &[&str] = &["0", "-2.5", "0.5", "0.00000001", "1000000000000", "1", "2", "-1"];
+/// never 9000..9099 (reserved for the injected close-position cid generator, canonicalised by label)
+const D_CIDS: &[u64] = &[0, 1, 2, 3, 4999, 5000, 5001, 8999];
+
+fn d_ex(rng: &mut Rng, nex: usize, own: usize) -> usize {
+    match rng.below(100) {
+        0..=69 => own,
+        70..=81 => rng.below(nex as u64) as usize,
+        82..=89 => nex + rng.below(2) as usize,
+        _ => *rng.pick(&[nex + 50, 1_000_000]),
+    }
+}
+
+fn d_req_open(rng: &mut Rng, nex: usize, defs: &[(usize, usize, usize)]) -> String {
+    let ins = rng.below(defs.len() as u64) as usize;
+    let ex = d_ex(rng, nex, defs[ins].0);
+    let side = if rng.chance(50) { "B" } else { "S" };
+    format!("o:{ex}:{ins}:{}:{side}:{}:{}", rng.pick(D_CIDS), rng.pick(D_PRICES), rng.pick(D_QTYS))
+}
+
+fn d_req_cancel(rng: &mut Rng, nex: usize, defs: &[(usize, usize, usize)]) -> String {
+    let ins = rng.below(defs.len() as u64) as usize;
+    let ex = d_ex(rng, nex, defs[ins].0);
+    let cid = rng.pick(D_CIDS);
+    if rng.chance(30) { format!("c:{ex}:{ins}:{cid}:{}", rng.below(3)) } else { format!("c:{ex}:{ins}:{cid}") }
+}
+
+/// batch size: empty, ordinary, large
+fn d_batch(rng: &mut Rng) -> u64 {
+    match rng.below(100) {
+        0..=11 => 0,
+        12..=79 => 1 + rng.below(3),
+        _ => 6 + rng.below(7),
+    }
+}
+
+/// filters with 1-3 elements (mostly several): duplicates, unknown exchange, out-of-range instrument,
+/// reversed / degenerate / unknown underlyings
+fn d_filter(rng: &mut Rng, nex: usize, nins: usize) -> String {
+    let k = if rng.chance(20) { 1 } else { 2 + rng.below(2) };
+    let list = |rng: &mut Rng, f: &mut dyn FnMut(&mut Rng) -> String| (0..k).map(|_| f(rng)).collect::<Vec<_>>().join(",");
+    match rng.below(7) {
+        0 => "none".into(),
+        1 | 2 => format!("ex:{}", list(rng, &mut |r| r.below(nex as u64 + 2).to_string())),
+        3 | 4 => format!("ins:{}", list(rng, &mut |r| r.below(nins as u64 + 1).to_string())),
+        _ => format!("und:{}", list(rng, &mut |r| match r.below(10) {
+            0 => format!("3-{}", r.below(3)),
+            1 => "3-3".into(),
+            2 => format!("{}-4", r.below(3)),
+            _ => format!("{}-3", r.below(3)),
+        })),
+    }
+}
+
+fn gen_case_dom(rng: &mut Rng, out: &mut Out, tier: &str, id: usize) {
+    let nex = rng.range(1, 3) as usize;
+    let links: String = (0..nex)
+        .map(|_| match rng.below(100) {
+            0..=54 => 'H',
+            55..=69 => 'C',
+            70..=84 => 'U',
+            _ => 'M',
+        })
+        .collect();
+    let mut defs: Vec<(usize, usize, usize)> = (0..nex).map(|e| (e, rng.below(3) as usize, 3)).collect();
+    for _ in 0..rng.below(4) {
+        defs.push((rng.below(nex as u64) as usize, rng.below(3) as usize, 3));
+    }
+    let nins = defs.len();
+    out.line(format!(
+        "init {} L {links} I {}",
+        if rng.chance(60) { "on" } else { "off" },
+        defs.iter().map(|(e, b, q)| format!("{e},{b},{q}")).collect::<Vec<_>>().join(" ")
+    ));
+    // every tenth case is a long history
+    let len = if id % 10 == 9 {
+        rng.range(120, if tier == "thorough" { 200 } else { 150 })
+    } else {
+        rng.range(1, if tier == "thorough" { 40 } else { 25 })
+    };
+    let mut has_pos = vec![false; nins];
+    for _ in 0..len {
+        if rng.chance(45) {
+            let (nc, no) = if rng.chance(12) { (3 + rng.below(4), 3 + rng.below(4)) } else { (rng.below(3), rng.below(3)) };
+            let mut reqs: Vec<String> = vec![];
+            for _ in 0..nc {
+                reqs.push(d_req_cancel(rng, nex, &defs));
+            }
+            for _ in 0..no {
+                reqs.push(d_req_open(rng, nex, &defs));
+            }
+            out.line(format!("algo {}", reqs.join(" ")).trim_end().to_string());
+        }
+        let i = rng.below(nins as u64) as usize;
+        let line = match rng.below(100) {
+            0..=17 => {
+                let k = d_batch(rng);
+                format!("ev cmd_open {}", (0..k).map(|_| d_req_open(rng, nex, &defs)).collect::<Vec<_>>().join(" "))
+            }
+            18..=32 => {
+                let k = d_batch(rng);
+                format!("ev cmd_cancel {}", (0..k).map(|_| d_req_cancel(rng, nex, &defs)).collect::<Vec<_>>().join(" "))
+            }
+            33..=40 => format!("ev trading {}", if rng.chance(50) { "on" } else { "off" }),
+            41..=58 => {
+                let cid = rng.pick(D_CIDS);
+                let q = *rng.pick(&["10", "10", "0", "0.5"]);
+                let p = *rng.pick(&["100", "0", "-1", "0.00000001"]);
+                match rng.below(10) {
+                    0 | 1 => format!("ev snap {i} {cid} {q} {p} F 0 0 0"),
+                    2 | 3 => format!("ev snap {i} {cid} {q} {p} X 0 0 0"),
+                    _ => format!(
+                        "ev snap {i} {cid} {q} {p} O {} {} {}",
+                        rng.below(4),
+                        rng.pick(&[-1i64, 0, 1, 2, 3, 4, 100_000]),
+                        rng.pick(&["0", "5", "10", "15", "0.5", "-1"])
+                    ),
+                }
+            }
+            59..=64 => format!("ev resp {i} {} {}", rng.pick(D_CIDS), if rng.chance(50) { "ok" } else { "err" }),
+            65..=66 => "ev shutdown".into(),
+            67..=75 => format!("ev cancel_orders {}", d_filter(rng, nex, nins)),
+            76..=85 => format!("ev close_positions {}", d_filter(rng, nex, nins)),
+            86..=93 => {
+                if has_pos[i] && rng.chance(30) {
+                    format!("ev reduce {i}")
+                } else if has_pos[i] {
+                    has_pos[i] = false;
+                    format!("ev flat {i}")
+                } else {
+                    has_pos[i] = true;
+                    format!(
+                        "ev fill {i} {} {}",
+                        if rng.chance(50) { "B" } else { "S" },
+                        rng.pick(&["0.5", "0.00000001", "1000000000000", "1", "3", "2.25"])
+                    )
+                }
+            }
+            94..=95 => format!("ev other {} {}", rng.pick(&["mktre", "accre", "bal"]), rng.below(nex as u64)),
+            // binary-exact prices only (the harness builds the market trade from an f64)
+            _ => format!("ev price {i} {}", rng.pick(&["100", "100.5", "0.25", "0", "1000000000", "-3"])),
+        };
+        out.line(line.trim_end().to_string());
+    }
+}
+
 fn generate(seed: u64, n_cases: usize, tier: &str) {
     let mut out = Out::new();
     let mut rng = Rng::new(seed);
     for id in 0..n_cases {
         out.case(format!("r{id}"));
         gen_case(&mut rng, &mut out, tier);
+    }
+    // input-domain family: one extra case per five random ones, own random stream
+    let mut drng = Rng::new(seed ^ 0xD0_3A_11_5E_ED);
+    for id in 0..n_cases / 5 {
+        out.case(format!("d{id}"));
+        gen_case_dom(&mut drng, &mut out, tier, id);
     }
     out.flush();
 }
